@@ -99,17 +99,24 @@ def evaluate(ctx: Ctx, scripts, which, compare_model=True, crypto_of=None, sampl
         # The theorems of C13 are proved for the model with the C13 repair and *either* setting of the
         # C12 repair switch (and the safety theorems of C12 likewise), so the tie may be made with
         # whichever of the two variants the code under check implements.
-        variants = [(True, True, "with the C12 repairs"), (True, False, "without discard_event on unsubscribe (C12-resubscribe.patch)"),
-                    (False, False, "without the C12 repairs (discard_stale_event, discard_event)")]
+        # (fix12 discard_stale_event, fixResub discard_event, fixRaise failed-write restore, fixHand stale hand-off drop)
+        variants = [(True, True, True, True, "with the C12 repairs"),
+                    (True, True, False, False, "without C12-failed-write.patch and C12-stale-handoff.patch"),
+                    (True, True, True, False, "without the drop of overtaken worker-thread hand-offs (C12-stale-handoff.patch)"),
+                    (True, True, False, True, "without the restore of the previous value when a setter callback raises (C12-failed-write.patch)"),
+                    (True, False, False, False, "without discard_event on unsubscribe (C12-resubscribe.patch), C12-failed-write.patch and C12-stale-handoff.patch"),
+                    (False, False, False, False, "without the C12 repairs (discard_stale_event, discard_event, failed-write restore, stale hand-off drop)"),
+                    (True, False, True, True, "without discard_event on unsubscribe (C12-resubscribe.patch)"),
+                    (False, False, True, True, "without discard_stale_event and discard_event")]
         ok = False
-        for fix12, fixr, label in variants:
-            lines = [dict(mline(ops), fix12=fix12, fixResub=fixr) for ops in scripts]
+        for fix12, fixr, fixf, fixh, label in variants:
+            lines = [dict(mline(ops), fix12=fix12, fixResub=fixr, fixRaise=fixf, fixHand=fixh) for ops in scripts]
             model = run_model_parallel(which, lines, workers=12)
             ok = all("fatal" not in m and gen.first_difference(m, gen.canon_impl(r)) is None
                      for m, r in zip(model, impl) if "crash" not in r)
             if ok:
                 st.hit("outcome", "model-variant: " + label, len(scripts))
-                if not (fix12 and fixr):
+                if not (fix12 and fixr and fixf and fixh):
                     st.notes.append("the code matches the model variant " + label + "; the C12 theorems that assume the "
                                     "missing repair (C12_quiescent / C12_delivered_current) do not apply to that variant")
                 break
